@@ -483,7 +483,7 @@ func c07attack(r *rng.R, i int) attack {
 	case 6:
 		// the heavy classes explicitly: deep nesting, allocation-bomb headers, very wide arrays
 		var heavy []c06case
-		want := rng.Pick(r, []string{"deep-nesting", "deep-nesting", "bomb-header", "wide", "deep-nesting-16MiB"})
+		want := rng.Pick(r, []string{"deep-nesting", "deep-nesting", "bomb-header", "wide", "deep-nesting-16MiB", "blank-lines-32MiB"})
 		for _, f := range c06.fixed {
 			if f.Class == want {
 				heavy = append(heavy, f)
@@ -536,7 +536,7 @@ func c07attack(r *rng.R, i int) attack {
 		a.Stream = s[:r.Intn(len(s)+1)]
 		a.Kind = "mid-request-cut"
 	}
-	if len(a.Stream) > 1<<20 && a.Kind != "heavy:deep-nesting-16MiB" {
+	if len(a.Stream) > 1<<20 && a.Kind != "heavy:deep-nesting-16MiB" && a.Kind != "heavy:blank-lines-32MiB" {
 		a.Stream = a.Stream[:1<<20]
 	}
 	return a
